@@ -950,6 +950,9 @@ func (h *hist) focusedPull(entry string, u int, path string) {
 			}
 		case "hls-segment":
 			o, _ = h.sh.hlsSegmentNow(path, 0, cred)
+			if strings.HasPrefix(o.Note, "machinery") {
+				h.machinery("no HLS segments on %s", path)
+			}
 		}
 		h.record(a)
 		h.judgeMedia(a, o, u, valid, allow, path)
